@@ -321,7 +321,8 @@ def run(tier, seed):
                 kind = "bc-lane-differs"
             if kind == "chip-order" and custom is None:
                 kind = "legal"
-            bc = rng.randrange(256)
+            # boundary bunch counters are over-represented: 0x00 is also the padding byte, 0xFF the other filler
+            bc = rng.choice([0, 0, 0, 255, 1, 0xA0, 0xB0, 0xE0, 0xF0]) if rng.random() < 0.45 else rng.randrange(256)
             if kind == "empty":
                 lanes = []
             else:
